@@ -42,6 +42,20 @@ whole intersection queue and `take(0)` returns no route -/
 theorem terminate_search_k_zero (t : KspTerm) (n : Nat) : t.terminate 0 (n + 1) = false := by
   cases t <;> simp [KspTerm.terminate]
 
+/-- `KspQuery::new`: `k` is the query's `"k"` when that field is present and an unsigned integer, a
+build error when it is present and anything else (`as_u64` is `None`: a float, a string, a
+negative number, `null` — exercised on the real code by the harness),
+and the configured value when it is absent -/
+theorem ksp_query_k_spec (kDefault : Nat) :
+    kspK none kDefault = .ok kDefault ∧
+    (∀ j n, j.asU64? = some n → kspK (some j) kDefault = .ok n) ∧
+    (∀ j, j.asU64? = none → kspK (some j) kDefault = .error .build) ∧
+    (∀ s, kspK (some (.str s)) kDefault = .error .build) ∧
+    kspK (some .null) kDefault = .error .build := by
+  refine ⟨rfl, ?_, ?_, fun s => rfl, rfl⟩
+  · intro j n h; simp [kspK, h]
+  · intro j h; simp [kspK, h]
+
 /-! ## single-via: count, order, termination -/
 
 /-- **between one and k routes**: never more than `k`; at least one as soon as `k ≥ 1` (the
